@@ -1034,13 +1034,8 @@ func (m *Memory) writeDb(rLocked bool) <-chan struct{} {
 	prev := m.lastWrite
 	m.lastWrite = done
 
-	// fork
-	go m.savePool.Go(func() error {
+	save := func() error {
 		defer close(done)
-		// keep the batches in order (the machine record travels with them)
-		if prev != nil {
-			<-prev
-		}
 		if m.disposed.Load() {
 			return nil
 		}
@@ -1071,7 +1066,18 @@ func (m *Memory) writeDb(rLocked bool) <-chan struct{} {
 		m.Saved.Add(uint64(l))
 
 		return nil
-	})
+	}
+
+	// fork
+	go func() {
+		// keep the batches in order (the machine record travels with them),
+		// waiting outside of the pool (a batch waiting inside of it for an
+		// earlier one, which cant get a slot, would block the pool for good)
+		if prev != nil {
+			<-prev
+		}
+		m.savePool.Go(save)
+	}()
 
 	return done
 }
